@@ -123,6 +123,13 @@ def apply_section(evs, s, handle_side):
                 pend['pop'] = 'None'
         elif n == 'Q.clear':
             s.q = 0
+        elif n == 'Q.drain_all':
+            s.q = 0  # every buffered value moved out, in order
+        elif n == 'Q.exhausted':
+            # the counted drain loop ran queue.len() times: only the executions in which the buffer is now empty exist
+            if s.q != 0:
+                raise Infeasible()
+            pend['pop'] = 'None'
         elif n == 'TERMINATE_SIGNALS':
             s.wl = []
         elif n in ('CANCEL_SEND', 'CANCEL_RECV'):
